@@ -46,7 +46,8 @@ def required_cells(tier):
             "pass-with-modes", "user-extends-builtin", "user-redefines-as-alias", "implicit==explicit", "alias==target",
             "repeat-parse", "implicit-option:attached-value", "builtin:gcc", "builtin:clang", "builtin:icx", "builtin:nvcc", "e2e:_OPENMP", "e2e:__CUDA_ARCH__",
             "e2e:__SYCL_DEVICE_ONLY__", "e2e:passes-differ-in-include-files", "unknown-compiler", "e2e:passes-differ-in-include-paths", "format:$value", "format:${value}", "argv0:symlink-to-known-compiler",
-            "implicit-option:dollar-name-set-in-environment", "argv:strict-prefix-of-configured-flag", "e2e:launcher-as-argv0", "default:plain-string"]
+            "implicit-option:dollar-name-set-in-environment", "argv:strict-prefix-of-configured-flag", "e2e:launcher-as-argv0", "default:plain-string", "e2e:conditional-free-source-with-pass-dependent-header",
+            "e2e:pass-selecting-flag-given-twice", "e2e:pass-selecting-flag-among-implicit-options"]
 
 
 # ------------------------------------------------------------------ TOML --
@@ -560,6 +561,11 @@ E2E_USER = {
                        {"name": "off-d", "defines": ["WITH_PH"], "include_paths": ["pa"]},
                        {"name": "off-e", "defines": ["WITH_PH"], "include_paths": ["pb"]}]},
 }
+# the same compiler with a pass-selecting flag among its IMPLICIT options: it behaves as if appended to the command
+# line, so it replaces what an explicit -foffload= selected
+E2E_USER["occ2"] = dict(E2E_USER["occ"], options=["-DOCC=1", "-foffload=c"])
+E2E_FLAT_SRC = "#include \"perpass.h\"\ncbi_m_flat_2;\ncbi_m_flat_3;\n"
+E2E_PERPASS_H = "cbi_m_pp_1;\n#ifdef TARGET_A\ncbi_m_pp_3;\n#endif\n#ifdef TARGET_B\ncbi_m_pp_6;\n#endif\n#ifdef TARGET_C\ncbi_m_pp_9;\n#endif\n#ifdef PH_B\ncbi_m_pp_12;\n#endif\n"
 E2E_USER_SRC = """cbi_m_u_1;
 #ifdef TARGET_A
 cbi_m_u_3;
@@ -598,7 +604,7 @@ def end_to_end_user(ctx, config, builtin, work):
         os.makedirs(os.path.join(d, sub), exist_ok=True)
     for name, text in (("a.h", "#define TARGET_A 1\n"), ("b.h", "#define TARGET_B 1\n"), ("m.h", "#define FROM_MODE 1\n"),
                        ("modeinc/deep.h", "cbi_m_deep_1;\n"), ("pa/ph.h", "#define PH_A 1\n"), ("pb/ph.h", "#define PH_B 1\n"),
-                       ("src.c", E2E_USER_SRC)):
+                       ("src.c", E2E_USER_SRC), ("flat.c", E2E_FLAT_SRC), ("perpass.h", E2E_PERPASS_H)):
         with open(os.path.join(d, name), "w") as f:
             f.write(text)
     load_user(config, d, E2E_USER)
@@ -606,8 +612,18 @@ def end_to_end_user(ctx, config, builtin, work):
     src = os.path.join(d, "src.c")
     cmds = [["occ"], ["occ", "-foffload=a,b"], ["occ", "--offload=b"], ["occ", "-foffload=a", "-fextra"], ["occ", "-foffload=c,b"],
             ["occ", "-fextra"], ["occ", "-foffload=b,a", "-DX"], ["occ", "-foffload=d,e"], ["occ", "-foffload=e,d"],
-            ["occ", "-foffload=a,d"], ["occ", "--offload=e", "-fextra"]]
-    for i, cmd in enumerate(cmds):
+            ["occ", "-foffload=a,d"], ["occ", "--offload=e", "-fextra"],
+            # the same pass-selecting flag twice: the last one decides (store semantics), also across its two spellings
+            ["occ", "-foffload=a", "-foffload=b"], ["occ", "-foffload=a,b", "--offload=c"], ["occ", "--offload=d", "-foffload=e", "-fextra"],
+            ["occ", "-foffload=b", "-foffload=b,a", "-foffload=a"],
+            # ... and when it is also an implicit option of the compiler
+            ["occ2"], ["occ2", "-foffload=a"], ["occ2", "--offload=a,b", "-fextra"]]
+    # a source file WITHOUT any conditional that includes a header whose lines depend on the pass: every selected pass
+    # has to be preprocessed although the first one already used every line of the source file itself
+    flat = os.path.join(d, "flat.c")
+    cmds = [(c, src) for c in cmds] + [(c, flat) for c in (["occ", "-foffload=a,b"], ["occ", "-foffload=b,a,c"], ["occ", "-foffload=e,a"], ["occ2", "-foffload=a"], ["occ"])]
+    texts = {src: E2E_USER_SRC, flat: E2E_FLAT_SRC, os.path.join(d, "perpass.h"): E2E_PERPASS_H}
+    for i, (cmd, src) in enumerate(cmds):
         if not ctx.mine(i):
             continue
         entries = [{"file": src, "directory": d, "arguments": cmd + ["-c", src]}]
@@ -628,8 +644,16 @@ def end_to_end_user(ctx, config, builtin, work):
                 if not g["ok"]:
                     raise RuntimeError("gcc: " + g["stderr"][:200])
                 live |= set(g["markers"])
-            want = {int(m.rsplit("_", 1)[1]) for m in live if m.startswith("cbi_m_u_")}
-            got = {ln for ln in used if E2E_USER_SRC.split("\n")[ln - 1].startswith("cbi_m_u_")}
+            if src == flat:
+                want = {m for m in live if m.startswith(("cbi_m_flat_", "cbi_m_pp_"))}
+                got = set()
+                for path_, text_ in texts.items():
+                    if path_ != os.path.join(d, "src.c") and state.get_tree(path_) is not None:
+                        ls_ = text_.split("\n")
+                        got |= {ls_[ln - 1].rstrip(";") for ln in cbi.used_lines(state, path_, "p") if ls_[ln - 1].startswith("cbi_m_")}
+            else:
+                want = {int(m.rsplit("_", 1)[1]) for m in live if m.startswith("cbi_m_u_")}
+                got = {ln for ln in used if E2E_USER_SRC.split("\n")[ln - 1].startswith("cbi_m_u_")}
             if want != got:
                 problems.append({"kind": "end-to-end attribution over passes (include files / paths)", "command": cmd, "expected": sorted(want), "observed": sorted(got)})
         except Exception as e:
@@ -637,7 +661,10 @@ def end_to_end_user(ctx, config, builtin, work):
         if problems:
             acc.violated({"input": {"entries": entries}, "witness": {"entries": entries, "problems": problems}}, cells={"e2e:passes-differ-in-include-files"}, cls="e2e")
         else:
-            acc.held(cells={"e2e:passes-differ-in-include-files"} | ({"e2e:passes-differ-in-include-paths"} if "d,e" in str(cmd) or "e,d" in str(cmd) else set()),
+            acc.held(cells={"e2e:passes-differ-in-include-files"} | ({"e2e:passes-differ-in-include-paths"} if "d,e" in str(cmd) or "e,d" in str(cmd) else set())
+                     | ({"e2e:conditional-free-source-with-pass-dependent-header"} if src == flat else set())
+                     | ({"e2e:pass-selecting-flag-given-twice"} if sum(1 for a_ in cmd if "offload" in a_) >= 2 else set())
+                     | ({"e2e:pass-selecting-flag-among-implicit-options"} if cmd[0] == "occ2" else set()),
                      cls="e2e", nontrivial={"entries": entries})
 
 
